@@ -137,6 +137,9 @@ func Run(a ConstMatrix, args ...interface{}) (Scalar, error) {
       panic("Determinant(): Invalid optional argument!")
     }
   }
+  if n, m := a.Dims(); n != m {
+    panic("Matrix is not a square matrix!")
+  }
   if logScale && !positiveDefinite {
     panic("Parameter LogScale is valid only for positive definite matrices!")
   }
